@@ -6,6 +6,7 @@ printed), 2 inconclusive (the deciding monitor saw too little).
 """
 import argparse
 import ast
+import gc
 import collections
 import importlib
 import json
@@ -67,6 +68,10 @@ class Reach:
         self.cov = None
 
     def start(self):
+        # sys.monitoring based measurement core: ~10x cheaper than the
+        # settrace tracer on 3.12 for this call-heavy workload (line data
+        # only, which is all the reach evidence needs)
+        os.environ.setdefault('COVERAGE_CORE', 'sysmon')
         import coverage
         self.cov = coverage.Coverage(
             data_file=None, include=[os.path.join(DESPER_ROOT, 'desper', '*')],
@@ -188,6 +193,11 @@ def run_cases(mod, tier, seed, shard, nshards, limit_s):
             except Exception as ex:
                 res = escaped_exception(mod, case, ex)
             out.evaluations += 1
+            if out.evaluations % 100 == 0:
+                # the classes generated per case are cyclic garbage; left to
+                # the generational collector they pile up in
+                # __subclasses__() of their bases (abc checks walk those)
+                gc.collect()
             out.stats.update(res.stats)
             for k, v in res.tags.items():
                 out.tags[k] |= set(v)
